@@ -176,6 +176,27 @@ func (st *wstate) checkClean(i int, l *scen.Lifetime, lf *model.Life, rep *scen.
 			}
 		}
 	}
+	// ground truth independent of the model: an entry header appended by a Match* call of
+	// this process names a slot that was addressed in this process
+	if !lf.Mode.CI {
+		appended := map[string]string{}
+		for _, op := range rep.Ops {
+			if op.Kind == "write" && op.Call >= 0 && op.Seq <= rep.CleanBegin {
+				if i := strings.Index(op.Arg, " ["); i > 0 && strings.HasSuffix(op.Arg, "]") {
+					appended[op.Arg[i+2:len(op.Arg)-1]] = op.Path
+				}
+			}
+		}
+		for _, id := range sum.Tests {
+			if f, ok := appended[id]; ok && obsIDs[id] == 0 && !freeIDs[id] && !plan.MaybeDirty(id) {
+				vv := viol("clean-listed-appended-entry", i, -1, id, []string{"C07"}, "Clean lists entry [%s] as obsolete although a Match* call of this very process appended it to %s", id, f)
+				vv.File = f
+				if st.hit(vv) {
+					return true
+				}
+			}
+		}
+	}
 	if !plan.HasRun {
 		// completeness and exactness of the report (C09)
 		listedF := map[string]bool{}
